@@ -45,6 +45,8 @@ def many_paths_rebase(sc):
         sc.commit_all("agent commit over %d files" % len(chunk))
     sc.g("checkout", "-q", base)
     where = rng.choice(["F", "F", "generated", "other"])
+    if (sc.index // 24) % 2 == 0:
+        where = "F"         # every other scale case: the only pair fails the precondition in F alone, the shortcut must decline
     if where == "F":
         lines = sc.read(F)
         lines[0:0] = [sc.fresh("human", hostile=False)]
